@@ -69,10 +69,26 @@ def rule_obligations():
     if g is not None:
         gopens = [c for c in ast.walk(g) if isinstance(c, ast.Call) and isinstance(c.func, ast.Name) and c.func.id == "open"]
         ok1 = len(gopens) == 1 and ast.unparse(gopens[0]) == "open(truth_file, 'rt')"
-        txt = ast.unparse(g)
-        ok2 = ("effect.update(map(lambda filename: _conform_filename(filename=filename, search=search, emit_func=partial(emit_func, word_wrap=args.no_word_wrap is None), replacement_node_ir=gold_ir, type_wanted=type_wanted), filenames))" in txt
-               and "for fun_name, (parse_func, emit_func, type_wanted) in arg2parse_emit_type.items():" in txt
-               and not any(isinstance(n, ast.Continue) for n in ast.walk(g)))
+        # W3, structurally: inside `for .. in arg2parse_emit_type.items()` the statement effect.update(map(L, filenames)) where
+        # L is a lambda whose body is ONE call of _conform_filename on the lambda's own parameter; no filter, no `continue`,
+        # no conditional around it.  (Other keyword arguments of the call are free to change.)
+        ok2 = False
+        loops = [n for n in ast.walk(g) if isinstance(n, ast.For) and ast.unparse(n.iter) == "arg2parse_emit_type.items()"]
+        if len(loops) == 1 and not any(isinstance(n, (ast.Continue, ast.Break)) for n in ast.walk(g)):
+            direct = [st_ for st_ in loops[0].body if isinstance(st_, ast.Expr) and isinstance(st_.value, ast.Call) and ast.unparse(st_.value.func) == "effect.update"]
+            if len(direct) == 1 and len(direct[0].value.args) == 1:
+                mp = direct[0].value.args[0]
+                if isinstance(mp, ast.Call) and ast.unparse(mp.func) == "map" and len(mp.args) == 2 and isinstance(mp.args[0], ast.Lambda) and isinstance(mp.args[1], ast.Name):
+                    lam = mp.args[0]
+                    lp = [a.arg for a in lam.args.args]
+                    body = lam.body
+                    fn_kw = [k for k in getattr(body, "keywords", []) if k.arg == "filename"]
+                    src_ok = False
+                    # the iterable is what `getattr(args, <kind>s)` / the namespace gave for this kind, bound once in the loop
+                    binds = [n for n in loops[0].body if isinstance(n, (ast.Assign, ast.AnnAssign)) and ast.unparse(getattr(n, "target", None) or n.targets[0]) == mp.args[1].id]
+                    src_ok = len(binds) == 1 and "filter" not in ast.unparse(binds[0].value)
+                    ok2 = (isinstance(body, ast.Call) and ast.unparse(body.func) == "_conform_filename" and len(lp) == 1 and len(fn_kw) == 1
+                           and isinstance(fn_kw[0].value, ast.Name) and fn_kw[0].value.id == lp[0] and src_ok)
     obs.append(("ground_truth/truth-file-opened-read-only", ok1, "the only open in ground_truth is open(truth_file, 'rt')"))
     obs.append(("ground_truth/every-listed-file-of-every-kind-is-conformed", ok2, "for every kind, effect.update(map(lambda filename: _conform_filename(...), filenames)) with no filter and no `continue`"))
     return obs
@@ -128,16 +144,19 @@ def one_case(case):
         for k, stt in zip(kinds, states):
             fn = os.path.join(d, "%s_.py" % k)
             files[k] = fn
+            # unrelated code in front of the target: a comment and a layout no code generator would produce
+            pre = "# keep this comment (%s)\nUNRELATED_%s = 1\nTABLE = { 'k' :1 }\n\n\n" % (k, k.upper())
             if k == truth or stt == "same":
-                open(fn, "wt").write("UNRELATED_%s = 1\n\n\n" % k.upper() + src(k if k != "argparse_function" else "argparse", "truth", doc))
+                open(fn, "wt").write(pre + src(k if k != "argparse_function" else "argparse", "truth", doc))
             elif stt == "other":
-                open(fn, "wt").write("UNRELATED_%s = 1\n\n\n" % k.upper() + src(k if k != "argparse_function" else "argparse", "other", doc))
+                open(fn, "wt").write(pre + src(k if k != "argparse_function" else "argparse", "other", doc))
             elif stt == "empty":
                 open(fn, "wt").write("")
         args = ["sync", "--class", files["class"], "--class-name", "ConfigClass", "--function", files["function"], "--function-name", "C.function_name",
                 "--argparse-function", files["argparse_function"], "--argparse-function-name", "set_cli_args", "--truth", truth]
         env = dict(os.environ, PYTHONPATH=common.REPO)
         want = interface(truth, files[truth])
+        initial = {k: (open(f, "rb").read() if os.path.exists(f) else None) for k, f in files.items()}
         snaps = []
         for run_no in (1, 2):
             r = subprocess.run([sys.executable, "-m", "cdd"] + args, capture_output=True, text=True, env=env, timeout=120)
@@ -150,6 +169,15 @@ def one_case(case):
             ch = [k for k in kinds if snaps[0][k] != snaps[1][k]]
             for k_ in ch:
                 out.append((("second-run-not-noop", "changed=" + k_, "state=" + (states[kinds.index(k_)] if k_ != truth else "truth")), "the second identical sync changed the %s file (truth %s, initial states %s)" % (k_, truth, "|".join(states)), None))
+        extra = sorted(set(os.listdir(d)) - {os.path.basename(f) for f in files.values()} - {"__pycache__"})
+        if extra:
+            out.append((("stray-file", "truth=" + truth), "sync left files it was not asked to write: %s" % extra, None))
+        for k, stt in zip(kinds, states):
+            if (k == truth or stt == "same") and snaps[0][k] != initial[k]:
+                # the target already has the truth's interface: nothing had to change, so the file -- the truth itself, or
+                # the code around an already conforming target (comments, layout) -- must come out byte-identical
+                out.append((("conforming-file-rewritten", "truth=" + truth, "target=" + k, "state=" + (stt if k != truth else "truth")),
+                            "the %s file already held the truth's interface but was rewritten: %r -> %r" % (k, (initial[k] or b"")[:60], (snaps[0][k] or b"")[:60]), None))
         for k, stt in zip(kinds, states):
             try:
                 got = interface(k, files[k])
@@ -167,6 +195,38 @@ def one_case(case):
         shutil.rmtree(d, ignore_errors=True)
 
 
+def shared_case(truth="function"):
+    """The truth's module is also listed as the file of another kind whose target is absent from it (layout of the project's own example)"""
+    d = tempfile.mkdtemp(prefix="cddvc_c12s_")
+    out = []
+    try:
+        kinds = ("class", "function", "argparse_function")
+        other = "class" if truth != "class" else "function"
+        shared = os.path.join(d, "shared_.py")
+        open(shared, "wt").write("UNRELATED_SHARED = 1\n\n\n" + src(truth if truth != "argparse_function" else "argparse", "truth"))
+        files = {k: os.path.join(d, "%s_.py" % k) for k in kinds}
+        files[truth] = files[other] = shared
+        third = next(k for k in kinds if k not in (truth, other))
+        open(files[third], "wt").write(src(third if third != "argparse_function" else "argparse", "truth"))
+        args = ["sync", "--class", files["class"], "--class-name", "ConfigClass", "--function", files["function"], "--function-name", "C.function_name",
+                "--argparse-function", files["argparse_function"], "--argparse-function-name", "set_cli_args", "--truth", truth]
+        want = interface(truth, shared)
+        r = subprocess.run([sys.executable, "-m", "cdd"] + args, capture_output=True, text=True, env=dict(os.environ, PYTHONPATH=common.REPO), timeout=120)
+        if r.returncode != 0:
+            return [("raises", "sync exits %d" % r.returncode, None)]
+        try:
+            got = interface(other, shared)
+        except Exception as ex:
+            return [(("shared-module-target-missing", "truth=" + truth, "target=" + other), "the %s target was not created in the module it shares with the truth: %s: %s" % (other, type(ex).__name__, str(ex)[:80]), None)]
+        if got != want:
+            out.append((("shared-module-target-differs", "truth=" + truth, "target=" + other), "in the shared module the %s target has %r, the truth %r" % (other, got, want), None))
+        return out
+    except Exception as ex:
+        return [("raises", "%s: %s" % (type(ex).__name__, str(ex)[:120]), None)]
+    finally:
+        shutil.rmtree(d, ignore_errors=True)
+
+
 def main(tier, write_baseline=False):
     run = Run("C12", tier, "other", checker_cmd=common.checker_cmd("C12", tier))
     run.trusted_base.update(["rule engine of checks/C12.py over the real ast (write frame, dominance, shape)"])
@@ -176,6 +236,25 @@ def main(tier, write_baseline=False):
         run.add("C12/" + name, st, "rule-engine", detail=detail)
         if ok is False:
             refuted.append(("C12/" + name, detail))
+
+    def rule_replay(_name):
+        # the clauses the frame rules carry (targets conformed, nothing else touched, second run a no-op), on the real CLI
+        for truth in ("function", "argparse_function"):
+            for key, what, _x in shared_case(truth):
+                if key != "raises":
+                    return {"case": ["shared-module", truth], "what": "[class %s] %s" % ("|".join(key), what[:300])}
+        for truth in ("class", "function", "argparse_function"):
+            for st3 in (("same", "same", "same"), ("other", "other", "other"), ("missing", "missing", "missing"), ("same", "other", "missing")):
+                case = (truth, st3, "short")
+                for key, what, _x in one_case(case):
+                    if key == "raises":
+                        continue
+                    cls = "|".join(str(k) for k in key)
+                    if run.match_finding({"class": cls, "obligation": "C12/bounded/%s" % key[0]}) is None:
+                        return {"case": [case[0], list(case[1]), case[2]], "what": "[class %s] %s" % (cls, what[:300])}
+        return None
+
+    refuted, rule_inputs = run.confirm_or_undecide(refuted, rule_replay, is_rule=lambda n: True)
     if write_baseline:
         common.write_baseline("C12", [n for n, o in run.obligations.items() if o["status"] == "proved"])
     compare_baseline(run, set(run.obligations))
@@ -191,6 +270,9 @@ def main(tier, write_baseline=False):
             cases.append((truth, ("missing", "missing", "missing"), "long"))
             cases.append((truth, ("empty", "other", "empty"), "long"))
         res = common.tmap(one_case, cases, threads=16)
+        shared = [("shared-module", t) for t in ("function", "argparse_function")]
+        res += [shared_case(t) for _s, t in shared]
+        cases = cases + [(s_, (t,), "short") for s_, t in shared]
         raised = 0
         for c, r in zip(cases, res):
             for key, what, _x in r:
@@ -200,13 +282,13 @@ def main(tier, write_baseline=False):
                 fails.setdefault(tuple(key), (c, what))
         run.bounded.append({
             "name": "the real CLI `python -m cdd sync` on triples of files, two consecutive runs (bounded, NOT counted as proved)",
-            "bound": "%d cases: truth in {class, function, argparse_function} x initial state of each of the three targets in {same as truth, other interface, missing, empty} (quick: seeded third) + long (>100 column) descriptions; oracle: re-parse with the matching parser, unrelated definitions kept, second run byte-identical" % len(cases),
+            "bound": "%d cases: truth in {class, function, argparse_function} x initial state of each of the three targets in {same as truth, other interface, missing, empty} (quick: seeded third) + long (>100 column) descriptions + 2 shared-module cases (the truth's module is also the file of another kind); oracle: re-parse with the matching parser, unrelated definitions kept, second run byte-identical" % len(cases),
             "rule": "one case = two CLI runs",
             "evaluations": len(cases), "distinct_nontrivial": len(cases) - raised,
             "failures": [{"class": "|".join(map(str, k)), "what": v[1][:250]} for k, v in list(fails.items())[:6]],
         })
     for name, detail in refuted:
-        run.violation(name, detail, solver_output={"rule": detail})
+        run.violation(name, detail, failing_input=rule_inputs.get(name), solver_output={"rule": detail})
     for key, (case, what) in sorted(fails.items(), key=str):
         cls = "|".join(str(k) for k in key)
         run.violation("C12/bounded/%s" % key[0], "[class %s] %s" % (cls, what), key={"class": cls}, failing_input={"case": [case[0], list(case[1]), case[2]]})
@@ -221,6 +303,10 @@ def replay(path):
     print("replaying %s: obligation %s" % (path, d["failed_obligation"]))
     if not inp:
         return 1
+    if inp[0] == "shared-module":
+        r = shared_case(inp[1][0] if isinstance(inp[1], list) else inp[1])
+        print(r)
+        return 1 if [x for x in r if x[0] != "raises"] else 0
     r = one_case((inp[0], tuple(inp[1]), inp[2]))
     print(r)
     return 1 if [x for x in r if x[0] != "raises"] else 0
